@@ -158,3 +158,97 @@ def conn_done():
 
 def conn_lost():
     return failure.Failure(ConnectionLost('connection lost (harness)'))
+
+
+# ----------------------------------------------------------------------------------------------
+# deterministic in-memory network: client <-> built-in bus
+
+
+class PipeTransport(MemoryTransport):
+    """Transport whose written bytes are queued for the peer; nothing moves until the schedule says."""
+
+    def __init__(self, name, creds=(4242, 0, 0)):
+        MemoryTransport.__init__(self, creds)
+        self.name = name
+        self.queue = bytearray()      # bytes written and not yet delivered to the peer
+        self.peer_proto = None
+        self.closed_delivered = False
+
+    def write(self, data):
+        if self.disconnecting:
+            return
+        self.log.append(('bytes', bytes(data)))
+        self.queue += data
+
+
+@implementer(interfaces.IUNIXTransport)
+class UnixPipeTransport(PipeTransport):
+    pass
+
+
+class BusNet:
+    """A real Bus with any number of real DBusClientConnections attached over PipeTransports.
+    Link names:  ('c2b', i) bytes written by client i waiting to reach the bus,
+                 ('b2c', i) bytes written by the bus for client i."""
+
+    def __init__(self, unix=False):
+        import txdbus.bus
+        from twisted.internet.protocol import Factory
+        self.clock = install_clock()
+        self.bus = txdbus.bus.Bus()
+        self.bfac = Factory()
+        self.bfac.protocol = txdbus.bus.BusProtocol
+        self.bfac.bus = self.bus
+        self.unix = unix
+        self.clients = []      # (conn, client_transport, bus_proto, bus_transport, factory)
+
+    def add_client(self):
+        i = len(self.clients)
+        ct = (UnixPipeTransport if self.unix else PipeTransport)('c%d' % i)
+        bt = PipeTransport('b%d' % i)
+        conn = txdbus.client.DBusClientConnection()
+        fac = txdbus.client.DBusClientFactory()
+        conn.factory = fac
+        bp = self.bfac.buildProtocol(None)
+        ct.peer_proto = bp
+        bt.peer_proto = conn
+        self.clients.append((conn, ct, bp, bt, fac))
+        bp.makeConnection(bt)
+        conn.makeConnection(ct)
+        return i
+
+    def pending(self):
+        out = []
+        for i, (conn, ct, bp, bt, fac) in enumerate(self.clients):
+            if ct.queue:
+                out.append(('c2b', i))
+            if bt.queue:
+                out.append(('b2c', i))
+        return out
+
+    def deliver(self, link, nbytes=None):
+        kind, i = link
+        conn, ct, bp, bt, fac = self.clients[i]
+        src, dst = (ct, bp) if kind == 'c2b' else (bt, conn)
+        n = len(src.queue) if nbytes is None else min(nbytes, len(src.queue))
+        data = bytes(src.queue[:n])
+        del src.queue[:n]
+        if data:
+            dst.dataReceived(data)
+        return n
+
+    def run(self, limit=10000):
+        """deliver everything in FIFO order until quiescent"""
+        n = 0
+        while True:
+            p = self.pending()
+            if not p:
+                return n
+            for link in p:
+                self.deliver(link)
+                n += 1
+                if n > limit:
+                    raise RuntimeError('network does not quiesce')
+
+    def ready(self, i):
+        return bool(self.clients[i][4].d.called) and self.clients[i][0].busName is not None
